@@ -1,0 +1,16 @@
+//go:build verif
+
+package keccak
+
+// Contracts checked by /verif (govc). Comments only; see /verif/DESIGN.md.
+
+//@ func (KeccakGadget) DefineGadget
+//@   property C04
+//@   trusted
+//@   returns []Variable
+//@   requires g.InputSize == len(g.InputData) && g.InputSize % 8 == 0 && g.InputSize >= 0
+//@   requires g.BlockSize == 1088 && g.OutputSize == 256 && g.Rounds == 24 && (g.Domain == 1 || g.Domain == 6)
+//@   requires g.RotationOffsets == R && g.RoundConstants == RC
+//@   ensures len(result) == 256
+//@   ensures api.ok == (ok0 && bits.allboolFrom(g.InputData, 0, g.InputSize))
+//@   ensures bits.allboolFrom(g.InputData, 0, g.InputSize) ==> result == keccak.digest(g.InputData, g.InputSize, g.Domain)
